@@ -77,7 +77,13 @@ class StubES(torch.nn.Module):
             molecule.dm = Dstar
         molecule.e_gap = torch.ones(nmol, dtype=R.dtype)
         molecule.e_mo = torch.zeros(nmol, 4 * n, dtype=R.dtype)
-        molecule.dipole = (R * real.unsqueeze(-1)).sum(1) * 0.1
+        # "dipole": a fixed linear functional of the density is added, so that the density history of the
+        # XL engines (P -> D) is visible in the files (/data/properties/ground_dipole) and any error in
+        # restoring that history on resume shows up in the exact file comparison
+        nb = molecule.dm.shape[-1]
+        ii = torch.arange(nb, dtype=R.dtype)
+        W = torch.stack([torch.cos(0.37 * (ii.unsqueeze(0) + 2.0 * ii.unsqueeze(1)) + c) for c in (0.0, 1.0, 2.0)], 0)
+        molecule.dipole = (R * real.unsqueeze(-1)).sum(1) * 0.1 + torch.einsum("mij,cij->mc", molecule.dm, W)
         molecule.q = torch.zeros(nmol, n, dtype=R.dtype)
 
 
